@@ -24,7 +24,7 @@ func init() { register(c14{}) }
 
 func (c14) ID() string { return "C14" }
 func (c14) Rule() string {
-	return "history monitor on the real gts binary (built with hooks H1/H2, scratch HOME/XDG_CACHE_HOME/TMPDIR): for each of the 19 cached subcommands a base invocation a and neighbours a' that differ from a in exactly one thing (each boolean option toggled, each valued option changed, each positional changed, the content of a secondary input changed under the same path, the primary input changed, -F switched); histories over one cache directory: [a,a], [a,a',a], [a',a,a',a], [a -o f, a], [a, a -o f, a], with failing inputs [bad,bad], [bad,good,bad], and [a,b,a,b] where b is another subcommand given a's arguments and input (every ordered pair of subcommands), and [a,a,a -o f,a] on a 2.6 MB three-record FASTA stream for clear, reverse, complement, sort. Oracle: every invocation's (output bytes on stdout or in the -o file, exit status) equals the memoised result of the same command with --no-cache in a pristine environment. The H2 event log must show a real cache hit for every command (else inconclusive); the option table is cross-checked against `gts <cmd> --help`. non-trivial: a history whose neighbour references differ (the changed thing matters on that input) or that contains a real hit; distinct: (argv, input digests, history shape). Also: a cache directory that takes no new entry (gts-cache linked to /proc/self), and the entry of a multi-MiB output torn as by a killed writer (zeroed header, half of the stored blocks) before the next identical run. A three-record infix host file and its twin that differs in the last residue of the last record. -F fastq / -F embl next to -F fasta / -F genbank; pairs of FASTA inputs with equal length and equal CRC-32 (IEEE and Castagnoli). Near-twins: the corpus record with CRLF line ends, a feature table differing in the blanks of a quoted value, the 2.6 MB and the 17 MiB input with one residue changed in the middle."
+	return "history monitor on the real gts binary (built with hooks H1/H2, scratch HOME/XDG_CACHE_HOME/TMPDIR): for each of the 19 cached subcommands a base invocation a and neighbours a' that differ from a in exactly one thing (each boolean option toggled, each valued option changed, each positional changed, the content of a secondary input changed under the same path, the primary input changed, -F switched); histories over one cache directory: [a,a], [a,a',a], [a',a,a',a], [a -o f, a], [a, a -o f, a], with failing inputs [bad,bad], [bad,good,bad], and [a,b,a,b] where b is another subcommand given a's arguments and input (every ordered pair of subcommands), and [a,a,a -o f,a] on a 2.6 MB three-record FASTA stream for clear, reverse, complement, sort. Oracle: every invocation's (output bytes on stdout or in the -o file, exit status) equals the memoised result of the same command with --no-cache in a pristine environment. The H2 event log must show a real cache hit for every command (else inconclusive); the option table is cross-checked against `gts <cmd> --help`. non-trivial: a history whose neighbour references differ (the changed thing matters on that input) or that contains a real hit; distinct: (argv, input digests, history shape). Also: a cache directory that takes no new entry (gts-cache linked to /proc/self), and the entry of a multi-MiB output torn as by a killed writer (zeroed header, half of the stored blocks) before the next identical run. A three-record infix host file and its twin that differs in the last residue of the last record. -F fastq / -F embl next to -F fasta / -F genbank; pairs of FASTA inputs with equal length and equal CRC-32 (IEEE and Castagnoli). Near-twins: the corpus record with CRLF line ends, a feature table differing in the blanks of a quoted value, the 2.6 MB and the 17 MiB input with one residue changed in the middle. select -s forward / reverse / both; delete CDS / delete cds; define with a repeated -q name, its last value alone, and the other order."
 }
 func (c14) Assumptions() []string {
 	return []string{"the --no-cache run in a pristine environment is the reference (memoised per argv+input digests)", "stderr is not compared", "one gts process at a time per cache directory", "Go toolchain; hooks H1/H2 only observe"}
@@ -221,6 +221,14 @@ func c14Plans() []cmdPlan {
 	{
 		b := file(mk("annotate", "feat.tbl"), "feat.tbl", "feat1-blank.tbl")
 		plans = append(plans, cmdPlan{"annotate", b, []neighbour{{"secondary-input", "feature table differing in the blanks inside a quoted value only", file(b, "feat.tbl", "feat1-blanks.tbl")}}, nil})
+	}
+	{
+		bf := mk("select", "CDS", "-s", "forward")
+		plans = append(plans, cmdPlan{"select", bf, []neighbour{{"option", "-s reverse instead of -s forward", mk("select", "CDS", "-s", "reverse")}, {"option", "-s both instead of -s forward", mk("select", "CDS", "-s", "both")}}, nil})
+		bd := mk("delete", "CDS")
+		plans = append(plans, cmdPlan{"delete", bd, []neighbour{{"positional", "the locator in lower case (another key)", mk("delete", "cds")}}, nil})
+		bq := mk("define", "misc_feature", "10..40", "-q", "note=first", "-q", "note=second")
+		plans = append(plans, cmdPlan{"define", bq, []neighbour{{"option", "only the last value of the repeated qualifier", mk("define", "misc_feature", "10..40", "-q", "note=second")}, {"option", "the values of the repeated qualifier in the other order", mk("define", "misc_feature", "10..40", "-q", "note=second", "-q", "note=first")}}, nil})
 	}
 	// format names of one family (what the writer makes of them is its own
 	// business; the cache must keep them apart as long as the outputs differ).
